@@ -20,6 +20,7 @@ type GenOpts struct {
 	Skeleton  bool // recursion skeleton first (direct / hidden / indirect ring)
 	LRFree    bool // repair left recursion away (C03)
 	Share     bool // bias towards several references to one rule at one position (cache hits)
+	SkWeights []int // when set, the skeleton kind is sampled from this list
 }
 
 // fixRepetitions makes every repetition operand consume input (C02's precondition): a
@@ -126,7 +127,11 @@ func GenGrammar(t *rapid.T, o GenOpts) *Grammar {
 	// is drawn before any body
 	sk := 0
 	if o.Skeleton {
-		sk = rapid.IntRange(0, 5).Draw(t, "skeleton") // 0 none 1 direct 2 hidden 3 ring 4 hidden ring 5 right/centre
+		if o.SkWeights != nil {
+			sk = o.SkWeights[rapid.IntRange(0, len(o.SkWeights)-1).Draw(t, "skeleton")]
+		} else {
+			sk = rapid.IntRange(0, 5).Draw(t, "skeleton") // 0 none 1 direct 2 hidden 3 ring 4 hidden ring 5 right/centre
+		}
 		if (sk == 3 || sk == 4) && n >= 2 {
 			for i := range g.Layer {
 				g.Layer[i] = 0
@@ -236,15 +241,19 @@ func GenGrammar(t *rapid.T, o GenOpts) *Grammar {
 			switch sk {
 			case 1: // direct: N -> N rest
 				head = []*Expr{rf(i)}
+				tail = rapid.IntRange(0, 5).Draw(t, "unit") != 0
 			case 2: // hidden: N -> nullable-prefix N rest
 				head = []*Expr{prefix(), rf(i)}
+				tail = rapid.IntRange(0, 5).Draw(t, "unit") != 0
 			case 3: // indirect ring through all rules
 				if n >= 2 {
 					head = []*Expr{rf((i + 1) % n)}
+					tail = rapid.IntRange(0, 3).Draw(t, "unit") != 0
 				}
 			case 4: // indirect ring with hidden links
 				if n >= 2 {
 					head = []*Expr{prefix(), rf((i + 1) % n)}
+					tail = rapid.IntRange(0, 3).Draw(t, "unit") != 0
 				}
 			case 5: // right / centre recursion: N -> rest N | rest N rest
 				head = []*Expr{term(), rf(i)}
@@ -354,4 +363,57 @@ func GenInput(t *rapid.T, g *Grammar, o GenOpts) string {
 
 func wsSample(t *rapid.T) string {
 	return rapid.SampledFrom([]string{"", " ", "\n", " \n", "  "}).Draw(t, "ws")
+}
+
+// shareTransform makes cache hits likely: a rule S (new, lowest layer, or an existing lower
+// rule) is referenced at the same position by several alternatives of another rule:
+// N -> Any(SeqOf(S, x), SeqOf(S, y), Opt(S), body).
+func shareTransform(t *rapid.T, g *Grammar, o GenOpts) {
+	term := func() *Expr {
+		return tm(o.Alphabet[rapid.IntRange(0, len(o.Alphabet)-1).Draw(t, "sch")])
+	}
+	small := func() *Expr {
+		switch rapid.IntRange(0, 6).Draw(t, "small") {
+		case 0:
+			return term()
+		case 1:
+			return ex(KSeqOf, term(), term())
+		case 2:
+			return ex(KAny, term(), ex(KSeqOf, term(), term()))
+		case 3:
+			return ex(KAny, term(), ex(KSeqOf, term(), term()), term())
+		case 4:
+			return ex(KMany1, term())
+		case 5:
+			return ex(KOpt, term())
+		default:
+			return ex(KAny, ex(KSeqOf, term(), term()), ex(KSeqOf, term(), term(), term()), ex(KOpt, term()))
+		}
+	}
+	// the shared rule: a fresh rule in a new lowest layer
+	for i := range g.Layer {
+		g.Layer[i]++
+	}
+	g.Rules = append(g.Rules, small())
+	g.Layer = append(g.Layer, 0)
+	s := len(g.Rules) - 1
+	host := rapid.IntRange(0, s-1).Draw(t, "host")
+	var alts []*Expr
+	m := rapid.IntRange(2, 3).Draw(t, "uses")
+	for i := 0; i < m; i++ {
+		switch rapid.IntRange(0, 3).Draw(t, "use") {
+		case 0:
+			alts = append(alts, ex(KSeqOf, rf(s), term()))
+		case 1:
+			alts = append(alts, ex(KOpt, rf(s)))
+		case 2:
+			alts = append(alts, ex(KSeqOf, rf(s), small()))
+		default:
+			alts = append(alts, rf(s))
+		}
+	}
+	alts = append(alts, g.Rules[host])
+	kind := KAny
+	g.Rules[host] = &Expr{K: kind, Kids: alts}
+	g.number()
 }
